@@ -28,6 +28,19 @@ SVC = {"ip": ("ip", None), "tcp": ("tcp", None), "icmp": ("icmp", None),
        # members of service object-groups: ports without a name (the tool documents that named ports inside
        # object-groups are not normalised - asa_acl.t "Element of object-group with named port ...")
        "tcp81": ("tcp", 81), "tcp82": ("tcp", 82)}
+# further services of the spelling family S1: atom -> ((proto, tail) in Netspoc spelling, (proto, tail) in device
+# spelling); neighbouring atoms differ in one number only, so a normaliser that is too coarse shows as well
+SVCX = {"esp": (("50", ""), ("esp", "")), "ah": (("51", ""), ("ah", "")), "gre": (("47", ""), ("gre", "")),
+        "icmp8": (("icmp", " 8"), ("icmp", " echo")), "icmp0": (("icmp", " 0"), ("icmp", " echo-reply")),
+        "icmp3-1": (("icmp", " 3 1"), ("icmp", " host-unreachable")),
+        "tcp2021": (("tcp", " range 20 21"), ("tcp", " range ftp-data ftp")),
+        "tcp2022": (("tcp", " range 20 22"), ("tcp", " range ftp-data ssh")),
+        "tcpgt": (("tcp", " gt 1023"), ("tcp", " gt 1023")), "tcplt": (("tcp", " lt 1024"), ("tcp", " lt 1024")),
+        "udp123": (("udp", " eq 123"), ("udp", " eq ntp")), "udp124": (("udp", " eq 124"), ("udp", " eq 124"))}
+RSVCX = {}
+for _a, (_n, _d) in SVCX.items():
+    RSVCX[(_n[0], _n[1].strip())] = _a
+    RSVCX[(_d[0], _d[1].strip())] = _a
 PORTNAME = {("tcp", 80): "www", ("tcp", 22): "ssh", ("udp", 53): "domain"}
 RPORT = {"www": 80, "ssh": 22, "domain": 53, "http": 80}
 LOGS = {"": "", "log": " log", "log4": " log 4"}
@@ -59,6 +72,11 @@ PORTATOM = {80: "tcp80", 22: "tcp22", 53: "udp53", 81: "tcp81", 82: "tcp82"}
 
 def ace_text(name, ace, dev, line=None):
     sgrp = None
+    if ace["svc"] in SVCX:
+        proto, tail = SVCX[ace["svc"]][1 if dev else 0]
+        return "access-list %s %sextended %s %s %s %s%s%s" % (
+            name, ("line %d " % line) if line else "", ace["act"], proto, term(ace["src"], dev), term(ace["dst"], dev),
+            tail, (LOGS_DEV if dev else LOGS)[ace["log"]])
     if ace["svc"] in SVC:
         proto, port = SVC[ace["svc"]]
     else:                       # the service is an object-group of type `service ... tcp`
@@ -165,6 +183,14 @@ def parse_ace(tok):
     dst, rest = _addr(rest)
     port = None
     sgrp = None
+    # services of the spelling family (either spelling): everything up to a trailing log attribute
+    tailtok = rest[:rest.index("log")] if "log" in rest else rest
+    if (proto, " ".join(tailtok)) in RSVCX and not (proto in ("tcp", "udp", "icmp") and not tailtok):
+        logtok = rest[len(tailtok):]
+        log = {(): "", ("log",): "log", ("log", "4"): "log4", ("log", "warnings"): "log4"}.get(tuple(logtok))
+        if log is None:
+            raise Broken("cmdparse: unknown ACE tail %r" % rest)
+        return {"act": act, "svc": RSVCX[(proto, " ".join(tailtok))], "src": src, "dst": dst, "log": log}
     if rest and rest[0] == "eq":
         p = rest[1]
         port = RPORT.get(p) or int(p)
@@ -288,7 +314,7 @@ def same_line(a, b):
 
 
 def grp_refs(ace):
-    return {t["v"] for t in (ace["src"], ace["dst"]) if t["k"] == "grp"} | ({ace["svc"]} if ace["svc"] not in SVC else set())
+    return {t["v"] for t in (ace["src"], ace["dst"]) if t["k"] == "grp"} | ({ace["svc"]} if ace["svc"] not in SVC and ace["svc"] not in SVCX else set())
 
 
 class Replica:
